@@ -578,6 +578,12 @@ def check(model, rep, tier):
   rep.unit('modules', len(model.modules))
 
   # ---------------------------------------------------------------- dependencies
+  rep.depends('C20', ['OPT-CALLEE'],
+              'whether a function scope pushes ENABLED follows from the options it '
+              'is given: only the outermost converted function gets the user\'s')
+  rep.depends('C10', ['CACHE-ALLOWLIST'],
+              'a call made in a DISABLED context must not be remembered as '
+              'not-to-convert: the effect of the region would outlive it')
   rep.depends('C10', ['CACHE-KEY'],
               'whether a converted function pushes ENABLED is baked into its '
               'generated code (user_requested): the cache key must keep '
